@@ -118,6 +118,38 @@ def oracle_geo(ctx):
                 ctx.violation({"kind": "oracle:ellipsoid", "ellipsoid_id": e, "b": b, "l": l, "h": h, "xyz": [x, y, z], "back": [b2, l2, h2], "oracle": why},
                               "ellipsoid %d: blh->xyz->blh of (%.9f, %.9f, %.3f): %s" % (e, b, l, h, why))
     ctx.obligation(bad == 0, "oracle:ellipsoid round trip")
+    # K: the same cases against the binary64 transliteration coq/EllRun.v (blh2xyz on the inputs, xyz2blh on the implementation's
+    # own x, y, z), judged in coqc
+    terms = []
+    ksel = [k for k in range(len(lines))][::(3 if ctx.quick else 1)]
+    for k in ksel:
+        (_, e, b, l, h) = q[k]
+        t = lines[k].split()
+        if len(t) != 8:
+            continue
+        terms.append("(%s, %s, (%s, %s, %s), (%s, %s, %s), (%s, %s, %s))" % (
+            vlib.hexfloat(float.fromhex(t[6])), vlib.hexfloat(float.fromhex(t[7])), vlib.hexfloat(b), vlib.hexfloat(l), vlib.hexfloat(h),
+            vlib.hexfloat(float.fromhex(t[0])), vlib.hexfloat(float.fromhex(t[1])), vlib.hexfloat(float.fromhex(t[2])),
+            vlib.hexfloat(float.fromhex(t[3])), vlib.hexfloat(float.fromhex(t[4])), vlib.hexfloat(float.fromhex(t[5]))))
+    kbad = []
+    shard = 1500
+    for s0 in range(0, len(terms), shard):
+        v = "From Coq Require Import List Floats NArith.\nFrom Gama Require Import EllRun.\nImport ListNotations.\nLocal Open Scope float_scope.\n" \
+            "Definition cases := [\n%s\n].\n" % ";\n".join(terms[s0:s0 + shard]) + 'Goal True. idtac "@@ELL". Abort.\nEval vm_compute in bad_ell cases.\n'
+        rc, cout = vlib.coq_run(v, ctx.scratch, name="cases_c18_ell_%d" % s0, timeout=900)
+        lst = vlib.parse_coq_list(cout, "@@ELL")
+        ctx.checker_cmds.append("coqc -Q coq Gama cases_c18_ell_%d.v" % s0)
+        ctx.obligation(rc == 0 and lst == [], "K:ellipsoid shard %d" % s0)
+        if rc != 0 or lst is None:
+            ctx.violation({"kind": "K:ellipsoid", "broken": "cases file did not evaluate", "tail": cout[-600:]}, "cases file failed", no_input=True)
+        else:
+            kbad += [ksel[s0 + int(x.replace("%N", ""))] for x in lst]
+    for k in kbad[:3]:
+        (_, e, b, l, h) = q[k]
+        # the round-trip oracle above accepted this case: model and code differ, the property's oracle sees no failure
+        ctx.violation({"kind": "K:ellipsoid", "ellipsoid_id": e, "b": b, "l": l, "h": h, "implementation": lines[k],
+                       "broken": "correspondence K:EllRun.blh2xyz / xyz2blh vs GNU_gama::Ellipsoid"},
+                      "model and implementation of the ellipsoid conversions disagree (ellipsoid %d, b %.9f, l %.9f, h %.3f)" % (e, b, l, h), no_input=(bad == 0))
     # ---- angles ----
     gons = [0, 1e-9, 1.1111111, 0.00005, 99.99999999, 100, 199.99999, 200, 399.9999999, 63.9347, 1.0 / 0.9, 59.99999 / 0.9, 0.9999999999 / 0.9]
     gons += [rng.uniform(0, 400) for _ in range(300 if ctx.quick else 5000)]
@@ -220,7 +252,7 @@ def oracle_geo(ctx):
 
 
 def run(ctx):
-    ctx.check_proofs(extra_files=["StringsRun"])
+    ctx.check_proofs(extra_files=["StringsRun", "EllRun"])
     k_literals(ctx)
     oracle_geo(ctx)
     return ctx.finish(rule="literals: exhaustive over a 9-character alphabet; ellipsoid: every ellipsoid of the table x latitudes incl. poles x longitudes incl. "
